@@ -9,14 +9,16 @@ Transition = one edit (permute type decls, move an impl, swap bridge modules, in
 Invariant  = per edge and backend, on sha1 of every generated file (see `check_edge`), plus 3 fresh processes per state.
 """
 import difflib
+import itertools
 import json
 import os
+import queue
 import re
 import shutil
 import time
 from collections import namedtuple
 
-from vlib.common import (BACKENDS, REPO, MachineryError, Reporter, build_tool, default_configs, pmap, read_tree,
+from vlib.common import (BACKENDS, NCPU, REPO, MachineryError, Reporter, build_tool, default_configs, pmap, read_tree,
                          run_tool, sha, workdir)
 
 RUNS_PER_STATE = 3          # fresh processes per (state, backend): RandomState differs in each
@@ -999,41 +1001,59 @@ class Node:
 
 
 class Runner:
+    """Runs the real tool.  Creating and unlinking files is by far the most expensive part on this filesystem, so output goes
+    into a small pool of re-used slot directories: before a run every file already in the slot gets mtime 0, after the run only
+    files with a fresh mtime (= written by this process) are read.  Every run is still a fresh process."""
+
     def __init__(self, wd):
         self.wd = wd
-        self._count = __import__('itertools').count(1)
+        self._count = itertools.count(1)
         self.executions = 0
-        self.src_written = set()
+        self.slots = queue.Queue()
+        for i in range(NCPU):
+            self.slots.put(i)
 
-    def write_src(self, node_key, state):
-        d = os.path.join(self.wd, "src", node_key)
-        if node_key in self.src_written and os.path.exists(d):
-            return d
+    def write_src(self, tag, state):
+        d = os.path.join(self.wd, "src", tag)
         os.makedirs(d, exist_ok=True)
         for p, t in render_state(state).items():
             with open(os.path.join(d, p), "w") as fh:
                 fh.write(t)
-        self.src_written.add(node_key)
         return d
 
-    def drop_src(self, node_key):
-        shutil.rmtree(os.path.join(self.wd, "src", node_key), ignore_errors=True)
-        self.src_written.discard(node_key)
+    def clean_slots(self):
+        base = os.path.join(self.wd, "out")
+        if os.path.isdir(base):
+            pmap(lambda d: shutil.rmtree(os.path.join(base, d), ignore_errors=True), sorted(os.listdir(base)))
 
-    def once(self, seed, node_key, state, backend, tag, keep=False):
+    def once(self, seed, src, backend, keep=False, pristine=False):
         """one fresh process; -> (rc, {relpath: sha} or None, stderr, tree bytes if keep)"""
-        src = self.write_src(node_key, state)
-        out = os.path.join(self.wd, "out", "%s-%s-%s" % (node_key, backend, tag))
-        shutil.rmtree(out, ignore_errors=True)
-        p = run_tool(backend, os.path.join(src, "lib.rs"), out, config_file=seed.config_file, configs=seed.configs(backend),
-                     cwd=self.wd)
-        self.executions = next(self._count)   # itertools.count is atomic under the GIL
-        tree = read_tree(out) if os.path.isdir(out) else {}
-        shutil.rmtree(out, ignore_errors=True)
-        if p.returncode != 0:
-            return p.returncode, None, p.stderr[-1500:], None
-        hashes = {k: sha(v) for k, v in tree.items()}
-        return 0, hashes, p.stderr[-500:], (tree if keep else None)
+        slot = self.slots.get()
+        try:
+            out = os.path.join(self.wd, "out", "s%d-%s" % (slot, backend))
+            if pristine:
+                shutil.rmtree(out, ignore_errors=True)
+            elif os.path.isdir(out):
+                for root, _, files in os.walk(out):
+                    for f in files:
+                        os.utime(os.path.join(root, f), ns=(0, 0))
+            p = run_tool(backend, os.path.join(src, "lib.rs"), out, config_file=seed.config_file, configs=seed.configs(backend),
+                         cwd=self.wd)
+            self.executions = next(self._count)   # itertools.count is atomic under the GIL
+            if p.returncode != 0:
+                return p.returncode, None, p.stderr[-1500:], None
+            tree = {}
+            for root, _, files in os.walk(out):
+                for f in files:
+                    fp = os.path.join(root, f)
+                    if os.stat(fp).st_mtime_ns == 0:
+                        continue          # left over from an earlier run in this slot, not written by this process
+                    with open(fp, "rb") as fh:
+                        tree[os.path.relpath(fp, out)] = fh.read()
+            hashes = {k: sha(v) for k, v in tree.items()}
+            return 0, hashes, p.stderr[-500:], (tree if keep else None)
+        finally:
+            self.slots.put(slot)
 
 
 def tree_digest(h):
@@ -1067,20 +1087,25 @@ class Explorer:
         self.samples = []
         self.nontrivial = 0       # edges where some file legitimately changed (locality edits)
         self.reported = {}        # (editkind, backend) -> number of files reported
+        self.rerun_reported = set()
+        self.suppressed = 0       # edge differences not reported separately because the backend was already shown to be unstable
+        self.rerun_count = {}     # backend -> states whose re-run difference was re-checked and reported (capped)
         self.truncated = []
+        self.not_accepted = []
+        self.agg_seen = {}        # backend -> aggregate files that were actually seen to change after an insert / delete
         self.deadline = None
 
     # ---- running states
     def execute(self, nodes):
         jobs = [(n, b) for n in nodes for b in BACKENDS]
-        for n in nodes:
-            self.runner.write_src(n.key, n.state)   # before any worker starts: workers only read the sources
+        # sources are written before any worker starts: workers only read them
+        src = {n.key: self.runner.write_src("c%d" % k, n.state) for k, n in enumerate(nodes)}
 
         def job(nb):
             n, b = nb
             runs = []
             for r in range(RUNS_PER_STATE):
-                rc, hashes, err, _ = self.runner.once(n.seed, n.key, n.state, b, "r%d" % r)
+                rc, hashes, err, _ = self.runner.once(n.seed, src[n.key], b)
                 runs.append((rc, hashes, err))
             return runs
 
@@ -1098,11 +1123,11 @@ class Explorer:
             for d in n.rerun[b]:
                 self.digests.add((b, d))
         for n in nodes:
-            self.runner.drop_src(n.key)
-        for n in nodes:
             for b in BACKENDS:
                 self.rerun_checks += RUNS_PER_STATE - 1
-                if len(set(n.rerun[b])) > 1:
+                if len(set(n.rerun[b])) > 1 and self.rerun_count.get(b, 0) < 3:
+                    self.rerun_count[b] = self.rerun_count.get(b, 0) + 1
+                    self.rerun_reported.add((b, n.key))
                     self.report_rerun(n, b)
 
     # ---- violations
@@ -1115,12 +1140,12 @@ class Explorer:
         # repeated trial: N more fresh processes, count the distinct trees
         trees = {}
         first = {}
+        src = self.runner.write_src("chk-r", n.state)
         for r in range(RECHECK_RUNS):
-            rc, hashes, err, tree = self.runner.once(n.seed, n.key, n.state, b, "rr%d" % r, keep=True)
+            rc, hashes, err, tree = self.runner.once(n.seed, src, b, keep=True)
             d = tree_digest(hashes) if rc == 0 else "FAILED(%s)" % rc
             trees[d] = trees.get(d, 0) + 1
             first.setdefault(d, (hashes, tree, err))
-        self.runner.drop_src(n.key)
         files, diff = [], []
         orig = [h for h in n.rerun_detail.get(b, []) if h is not None]
         orig_files = sorted({f for h in orig for g in orig for f in set(h) | set(g) if h.get(f) != g.get(f)})
@@ -1150,6 +1175,13 @@ class Explorer:
             if hp is None or hc is None:
                 if hp is None and hc is None:
                     continue
+                if edit.kind in LOCAL or hp is None:
+                    # the bridge itself changed (or the parent was already outside the domain): a module the backend does not
+                    # accept is outside "all accepted modules"; recorded, reported separately (C15 territory), not a C14 verdict
+                    side = child if hc is None else parent
+                    self.not_accepted.append({"seed": child.seed.name, "history": child.history, "backend": b,
+                                              "rc": side.fail[b][0], "stderr": side.fail[b][1].strip()[-300:]})
+                    continue
                 self.report_edge(parent, child, edit, b, ["<tool exit status>"], "tool-status")
                 continue
             differing = sorted(f for f in set(hp) | set(hc) if hp.get(f) != hc.get(f))
@@ -1159,12 +1191,11 @@ class Explorer:
                 bad = []
                 for f in differing:
                     if is_aggregate(b, f):
+                        self.agg_seen.setdefault(b, set()).add(os.path.basename(f) if b == "kotlin" else f)
                         continue
                     only_one_side = (f in hp) != (f in hc)
-                    if only_one_side and edit.subject in os.path.basename(f):
-                        continue     # X's own file appears / disappears
-                    if not only_one_side and edit.subject in os.path.basename(f):
-                        continue     # (cannot happen for a fresh name; X's own file anyway)
+                    if only_one_side and (edit.subject in os.path.basename(f) or edit.renamed):
+                        continue     # X's own file appears / disappears (under a rename attribute its name is unknown)
                     bad.append(f)
                 differing = bad
             if differing:
@@ -1176,11 +1207,25 @@ class Explorer:
         cnt = self.reported.get((edit.kind, b), 0)
         if cnt >= 4:
             return
-        # re-check in fresh processes (both sides), keeping the bytes for the diff
-        rcp, hp, errp, tp = self.runner.once(parent.seed, parent.key, parent.state, b, "cp", keep=True)
-        rcc, hc, errc, tc = self.runner.once(child.seed, child.key, child.state, b, "cc", keep=True)
-        self.runner.drop_src(parent.key)
-        self.runner.drop_src(child.key)
+        if (self.rerun_count.get(b, 0) >= 3 or len(set(parent.rerun[b])) > 1 or len(set(child.rerun[b])) > 1
+                or (b, parent.key) in self.rerun_reported or (b, child.key) in self.rerun_reported):
+            # this backend's output is not even stable from run to run (already reported under C14|rerun): differences between two
+            # states cannot be attributed to the edit
+            self.suppressed += 1
+            return
+        # re-check in fresh processes (both sides, several times each), keeping the bytes for the diff; if one side alone is not
+        # stable the difference is run-to-run nondeterminism and is reported as such
+        sa, sb = self.runner.write_src("chk-a", parent.state), self.runner.write_src("chk-b", child.state)
+        rcp, hp, errp, tp = self.runner.once(parent.seed, sa, b, keep=True, pristine=True)
+        rcc, hc, errc, tc = self.runner.once(child.seed, sb, b, keep=True, pristine=True)
+        for node, src, ref in ((parent, sa, (rcp, hp)), (child, sb, (rcc, hc))):
+            for _ in range(4):
+                rc2, h2, _, _ = self.runner.once(node.seed, src, b)
+                if (rc2, h2) != ref:
+                    if (b, node.key) not in self.rerun_reported:
+                        self.rerun_reported.add((b, node.key))
+                        self.report_rerun(node, b)
+                    return
         rp, rc_ = render_state(parent.state), render_state(child.state)
         src_diff = []
         for p in sorted(set(rp) | set(rc_)):
@@ -1213,48 +1258,68 @@ class Explorer:
             self.rep.violation("C14|%s|backend=%s|file=%s" % (edit.kind, b, f), witness, what)
 
     # ---- BFS
-    def explore(self, seed, depth, max_states=None):
+    def explore(self, seed, opts_by_depth):
+        """BFS from seed; opts_by_depth[d-1] = edit alphabet used for the d-th edit of a history."""
         root_key = state_key(seed.state)
-        root = self.nodes.get((seed.name, root_key))
-        if root is None:
-            root = Node(root_key, seed.state, seed, [], 0)
-            self.nodes[(seed.name, root_key)] = root
-            self.execute([root])
-            bad = [(b, root.fail[b]) for b in BACKENDS if root.out[b] is None]
-            if bad:
-                raise MachineryError("seed %s is not accepted by every backend: %s" % (seed.name, bad))
+        root = Node(root_key, seed.state, seed, [], 0)
+        self.nodes[(seed.name, root_key)] = root
+        self.execute([root])
+        bad = [(b, root.fail[b]) for b in BACKENDS if root.out[b] is None]
+        if bad:
+            raise MachineryError("seed %s is not accepted by every backend: %s" % (seed.name, bad))
+        # machinery guard: a run into a brand-new directory must give what the re-used slot directories gave
+        src = self.runner.write_src("chk-a", root.state)
+        for b in BACKENDS:
+            rc, hashes, err, _ = self.runner.once(seed, src, b, pristine=True)
+            if hashes != root.out[b] and len(set(root.rerun[b])) == 1:
+                again = [self.runner.once(seed, src, b, pristine=True)[1] for _ in range(3)]
+                slot = [self.runner.once(seed, src, b)[1] for _ in range(3)]
+                if all(h == hashes for h in again) and all(h == root.out[b] for h in slot):
+                    raise MachineryError("slot re-use changes what is observed for seed %s backend %s" % (seed.name, b))
+                self.rerun_reported.add((b, root.key))
+                self.report_rerun(root, b)      # the tool itself is not stable
         frontier = [root]
-        for d in range(1, depth + 1):
-            pending = []    # (parent, edit, child key)
+        done_depth = 0
+        for d, opts in enumerate(opts_by_depth, 1):
+            pending = []    # (parent, edit, child node)
             new_nodes = []
             for parent in frontier:
-                for edit, cst in successors(parent.state, seed.opts):
+                for edit, cst in successors(parent.state, opts):
                     k = state_key(cst)
                     node = self.nodes.get((seed.name, k))
                     if node is None:
-                        if max_states is not None and self.count_seed(seed) >= max_states:
-                            if seed.name not in self.truncated:
-                                self.truncated.append(seed.name)
-                            continue
                         node = Node(k, cst, seed, parent.history + [edit.desc], d)
                         self.nodes[(seed.name, k)] = node
                         new_nodes.append(node)
                     pending.append((parent, edit, node))
-            # execute in chunks so that scratch space stays small
-            for i in range(0, len(new_nodes), 64):
-                self.execute(new_nodes[i:i + 64])
+            # execute in chunks so that scratch space stays small; stop at the wall cap (prefix of BFS order completed)
+            executed = 0
+            for i in range(0, len(new_nodes), 48):
+                if self.deadline and time.time() > self.deadline:
+                    break
+                self.execute(new_nodes[i:i + 48])
+                executed = min(len(new_nodes), i + 48)
+            if executed < len(new_nodes):
+                self.truncated.append({"seed": seed.name, "depth": d, "states_executed_at_this_depth": executed,
+                                       "states_enumerated_at_this_depth": len(new_nodes)})
+                for n in new_nodes[executed:]:
+                    del self.nodes[(seed.name, n.key)]
+                new_nodes = new_nodes[:executed]
             for parent, edit, node in pending:
+                if not node.out:
+                    continue    # cut off by the wall cap
                 self.check_edge(parent, node, edit)
-                if len(self.samples) < 40 and (self.edges % 37 == 1 or len(self.samples) < 4):
-                    self.samples.append({"seed": seed.name, "history": node.history if node.depth == d else parent.history + [edit.desc],
+                if len(self.samples) < 40 and (self.edges % 41 == 1 or len(self.samples) < 3):
+                    self.samples.append({"seed": seed.name, "history": parent.history + [edit.desc],
                                          "files_changed_vs_parent": {b: (None if parent.out[b] is None or node.out[b] is None else sum(
                                              1 for f in set(parent.out[b]) | set(node.out[b]) if parent.out[b].get(f) != node.out[b].get(f)))
                                              for b in BACKENDS}})
             frontier = new_nodes
-            # the structural states are only needed for the frontier
-            if not frontier:
+            if executed == len(new_nodes) or True:
+                done_depth = d
+            if not frontier or self.truncated:
                 break
-        return root
+        return done_depth
 
     def count_seed(self, seed):
         return sum(1 for (s, _) in self.nodes if s == seed.name)
@@ -1275,15 +1340,28 @@ def make_seeds(wd, tier):
     return seeds
 
 
+# edit alphabets.  FULL is used for the first edit of every history; deeper levels use narrower alphabets so that the number of
+# real tool runs (21 per state; ~250 process starts per second on this box) fits the tier's wall budget.
+FULL = {}
+QUICK1 = {"insert_combos": (("opaque", "first"), ("opaque", "last"), ("struct", "middle"), ("enum", "first"), ("enum", "last"))}
+REDUCED = {"insert_combos": (("opaque", "first"), ("struct", "middle"), ("enum", "last")),
+           "nonbridge_kinds": ("same-name-struct", "plain-mod", "outer-impl")}
+PERMDEL = {"insert_combos": (), "nonbridge_kinds": ()}          # permutations and deletions only
+FT_QUICK = {"perm_files": ("structs.rs", "attrs.rs"), "insert_files": ("attrs.rs", "result.rs"),
+            "insert_combos": (("opaque", "first"), ("struct", "last"), ("enum", "middle")),
+            "nonbridge_files": ("lib.rs",), "nonbridge_kinds": ("same-name-struct", "plain-mod", "outer-impl", "fn")}
+FT_FULL = {"nonbridge_files": ("lib.rs", "structs.rs", "attrs.rs")}
+FT_DEEP = {"perm_files": ("attrs.rs", "lifetimes.rs"), "insert_files": ("attrs.rs",), "insert_combos": (("opaque", "first"),),
+           "nonbridge_kinds": ("plain-mod",)}
+
 PLAN = {
-    # seed -> (depth, options)
-    "quick": {
-        "basic": 1, "two_modules": 1, "cyclic": 1, "interleaved": 1, "results": 1, "strings": 1, "tiny": 2, "feature_tests": 1,
-    },
-    "thorough": {
-        "basic": 2, "two_modules": 2, "cyclic": 2, "interleaved": 2, "results": 2, "strings": 2, "tiny": 3, "feature_tests": 1,
-    },
+    "quick": [("tiny", [QUICK1, PERMDEL]), ("basic", [QUICK1]), ("two_modules", [QUICK1]), ("cyclic", [QUICK1]),
+              ("interleaved", [QUICK1]), ("results", [QUICK1]), ("strings", [QUICK1]), ("feature_tests", [FT_QUICK])],
+    "thorough": [("tiny", [FULL, REDUCED, PERMDEL]), ("feature_tests", [FT_FULL]), ("basic", [FULL, REDUCED]),
+                 ("two_modules", [FULL, REDUCED]), ("cyclic", [FULL, REDUCED]), ("interleaved", [FULL, REDUCED]),
+                 ("results", [FULL, REDUCED]), ("strings", [FULL, REDUCED])],
 }
+WALL_CAP = {"quick": 85, "thorough": 540}
 
 
 def run(tier):
@@ -1291,25 +1369,21 @@ def run(tier):
     build_tool()
     wd = workdir("C14")
     ex = Explorer(rep, tier, wd)
-    seeds = make_seeds(wd, tier)
-    plan = PLAN[tier]
+    ex.deadline = time.time() + WALL_CAP[tier]
+    seeds = {s.name: s for s in make_seeds(wd, tier)}
     per_seed = {}
-    for seed in seeds:
+    for name, opts_by_depth in PLAN[tier]:
+        seed = seeds[name]
         t0 = time.time()
-        depth = plan[seed.name]
         before = (len(ex.nodes), ex.edges)
-        if seed.name == "feature_tests":
-            if tier == "quick":
-                seed.opts = {"perm_files": ("structs.rs", "attrs.rs", "result.rs"), "insert_files": ("structs.rs", "attrs.rs"),
-                             "insert_kinds": ("opaque", "struct", "enum"), "insert_pos": ("first", "last"),
-                             "nonbridge_files": ("lib.rs", "structs.rs")}
-            else:
-                seed.opts = {"nonbridge_files": ("lib.rs", "structs.rs", "attrs.rs")}
-        elif seed.name == "tiny" and depth >= 3:
-            pass
-        ex.explore(seed, depth)
-        per_seed[seed.name] = {"depth": depth, "states": len(ex.nodes) - before[0], "edit_applications": ex.edges - before[1],
-                               "wall_s": round(time.time() - t0, 1)}
+        if ex.truncated:
+            ex.truncated.append({"seed": name, "depth": 0, "states_executed_at_this_depth": 0})
+            continue
+        ex.explore(seed, opts_by_depth)
+        ex.runner.clean_slots()
+        per_seed[name] = {"depth": len(opts_by_depth), "alphabet_by_depth": [o or "FULL" for o in opts_by_depth],
+                          "states": len(ex.nodes) - before[0], "edit_applications": ex.edges - before[1],
+                          "wall_s": round(time.time() - t0, 1)}
     shutil.rmtree(wd, ignore_errors=True)
     n_states = len(ex.nodes)
     cov = {
@@ -1328,7 +1402,10 @@ def run(tier):
                   "edge_x_backend_comparisons": ex.edge_checks, "rerun_comparisons": ex.rerun_checks,
                   "fresh_processes_per_state_and_backend": RUNS_PER_STATE, "backends": BACKENDS,
                   "insert_alphabet": {"kinds": INSERT_KINDS, "name_positions": INSERT_POS}, "nonbridge_alphabet": NONBRIDGE_KINDS,
-                  "truncated_seeds": ex.truncated},
+                  "aggregate_files_seen_changing": {b: sorted(v) for b, v in sorted(ex.agg_seen.items())},
+                  "edge_differences_attributed_to_rerun_instability": ex.suppressed,
+                  "wall_cap_s": WALL_CAP[tier], "cut_short_by_wall_cap": ex.truncated,
+                  "states_not_accepted_by_a_backend_after_insert_or_delete": ex.not_accepted[:20]},
         "samples": ex.samples[:8],
     }
     return rep.finish(cov, [
